@@ -8,6 +8,7 @@
 -/
 import StatsCI.Driver.IntervalOps
 import StatsCI.Driver.StatOps
+import StatsCI.Driver.PropOps
 
 namespace StatsCI.Driver
 open StatsCI
@@ -20,7 +21,10 @@ def evalLine (prop op : String) (args : List String) : Option OpEval :=
     match prop with
     | "C07" | "C13" | "C14" | "C15" | "C19" =>
         (intervalOp op ty rest).map fun m => { run := fun _ _ => { model := m.map Tok.s } }
-    | _ => statOp op ty rest
+    | _ =>
+      match statOp op ty rest with
+      | some e => some e
+      | none => propOp op ty rest
 
 def splitAt (sep : String) (toks : List String) : List String × List String :=
   let pre := toks.takeWhile (· != sep)
